@@ -98,10 +98,13 @@ Proof. exact reentrancies_order. Qed.
 Print Assumptions C15_reentrancies_order.
 
 (* a | b: the triples of a, then those triples of b that are not in a, in b's
-   order (a triple of b that is new and occurs twice in b is added twice) *)
+   order (a triple of b that is new and occurs twice in b is added twice);
+   metadata cleared; _top is the left operand's *)
 Theorem C15_or_spec : forall a b,
-  triples (g_or a b) = triples a ++ filter (fun t => negb (tmem t (triples a))) (triples b).
-Proof. exact or_triples. Qed.
+  triples (g_or a b) = triples a ++ filter (fun t => negb (tmem t (triples a))) (triples b) /\
+  Sublist (triples a) (triples (g_or a b)) /\
+  gmeta (g_or a b) = [] /\ gtop (g_or a b) = gtop a.
+Proof. exact or_spec. Qed.
 Print Assumptions C15_or_spec.
 
 (* markers of a | b: a's dictionary updated with (markers of the new triples, in
